@@ -117,22 +117,34 @@ def negNumber (t : Str) : Bool :=
        | _ => false)
   | _ => false
 
+/-- one argument string on its own: an argument, a known option, an unknown option -/
+inductive Tok
+  | arg (s : Str)
+  | opt (id : OptId) (long : Bool) (explicit : Option Str)
+  | unk
+deriving DecidableEq, Repr
+
+def Tok.toCls : Tok → Cls
+  | .arg s => .arg s
+  | .opt id long e => .opt id long e
+  | .unk => .unk
+
 /-- `_get_option_tuples` -/
-def optionTuples (t : Str) : List Cls :=
+def optionTuples (t : Str) : List Tok :=
   if t.getD 1 0 == 45 then
     -- two prefix characters: abbreviations of long options, split at '='
     let (pre, e) := match splitEq t with
       | some (a, b) => (a, some b)
       | none => (t, none)
-    (longOpts.filter (fun p => pre.isPrefixOf p.1)).map (fun p => Cls.opt p.2 true e)
+    (longOpts.filter (fun p => pre.isPrefixOf p.1)).map (fun p => Tok.opt p.2 true e)
   else
     -- one prefix character: a short option with its value attached
-    ((shortOpts.filter (fun p => p.1 == t.take 2)).map (fun p => Cls.opt p.2 false (some (t.drop 2)))) ++
+    ((shortOpts.filter (fun p => p.1 == t.take 2)).map (fun p => Tok.opt p.2 false (some (t.drop 2)))) ++
     (((shortOpts ++ longOpts).filter (fun p => t.isPrefixOf p.1 && p.1 != t.take 2)).map
-      (fun p => Cls.opt p.2 (p.1.getD 1 0 == 45) none))
+      (fun p => Tok.opt p.2 (p.1.getD 1 0 == 45) none))
 
 /-- `_parse_optional`; `none` = "ambiguous option" (usage error while the arguments are being classified) -/
-def classify (t : Str) : Option Cls :=
+def classifyTok (t : Str) : Option Tok :=
   match t with
   | [] => some (.arg t)
   | c :: _ =>
@@ -142,8 +154,8 @@ def classify (t : Str) : Option Cls :=
     | none =>
       if t.length = 1 then some (.arg t)
       else
-        let viaEq : Option Cls := match splitEq t with
-          | some (o, e) => (lookupOpt o).map (fun p => Cls.opt p.1 p.2 (some e))
+        let viaEq : Option Tok := match splitEq t with
+          | some (o, e) => (lookupOpt o).map (fun p => Tok.opt p.1 p.2 (some e))
           | none => none
         match viaEq with
         | some c => some c
@@ -155,6 +167,8 @@ def classify (t : Str) : Option Cls :=
             if negNumber t then some (.arg t)
             else if t.contains 32 then some (.arg t)
             else some .unk
+
+def classify (t : Str) : Option Cls := (classifyTok t).map Tok.toCls
 
 /-- all argument strings; everything after the first `--` is an argument -/
 def classifyAll : List Str → Option (List Cls)
@@ -364,11 +378,13 @@ deriving DecidableEq, Repr
 /-- `Path(p).name` -/
 def pyName (p : Str) : Str := (pathComps p).getLast?.getD []
 
-/-- index of the last `.` -/
-def lastDot (name : Str) : Option Nat :=
-  match name.reverse.idxOf? 46 with
-  | none => none
-  | some j => some (name.length - 1 - j)
+/-- index of the last `.` (`name.rfind('.')`) -/
+def lastDot : Str → Option Nat
+  | [] => none
+  | c :: t =>
+    match lastDot t with
+    | some i => some (i + 1)
+    | none => if c == 46 then some 0 else none
 
 /-- `PurePath.suffix` of a name: from the last dot, unless that dot is the first or the last character -/
 def pySuffix (name : Str) : Str :=
